@@ -45,7 +45,7 @@ fn ns_of(m: &Value) -> Result<Namespaces<2, Ns>> {
 
 fn read_stream(ns: Namespaces<2, Ns>, text: &str) -> Result<Mappings<2, Ns>> {
 	let mut m = Mappings::new(quill::tree::mappings::MappingInfo { namespaces: ns });
-	quill::enigma_file::read_into(text.as_bytes(), &mut m)?;
+	quill::enigma_file::read_into(super::FragR::new(text.as_bytes()), &mut m)?;
 	Ok(m)
 }
 
@@ -93,7 +93,7 @@ fn rt(v: &Value) -> Result<Value> {
 	let seed = v["seed"].as_u64().unwrap_or(1);
 	let base: Mappings<2, Ns> = json_to_tree(mj)?;
 	let mut text = Vec::new();
-	if quill::enigma_file::write_all(&base, &mut text).is_err() {
+	if quill::enigma_file::write_all(&base, &mut super::FragW::new(&mut text)).is_err() {
 		return Ok(json!({"done": true, "write": "err"}));
 	}
 	let text = String::from_utf8(text).context("utf8")?;
